@@ -5,6 +5,7 @@ package main
 import (
 	"fmt"
 	"math/big"
+	"regexp"
 	"sort"
 	"strings"
 )
@@ -224,9 +225,25 @@ func (s *Script) declareFun(name string, args []string, ret string) {
 	s.decl = append(s.decl, fmt.Sprintf("(declare-fun %s (%s) %s)", name, strings.Join(args, " "), ret))
 }
 
+var qvarRe = regexp.MustCompile(`q[0-9]+_[A-Za-z0-9_]+`)
+
+// unboundQVar: the term mentions a spec quantifier variable outside its binder
+// (e.g. a type invariant emitted for a heap load under a quantifier).
+func unboundQVar(t string) bool {
+	for _, v := range qvarRe.FindAllString(t, -1) {
+		if !strings.Contains(t, "("+v+" Int)") && !strings.Contains(t, "("+v+" Bool)") && !strings.Contains(t, "("+v+" String)") {
+			return true
+		}
+	}
+	return false
+}
+
 func (s *Script) assume(t string) {
 	if t == "true" {
 		return
+	}
+	if unboundQVar(t) {
+		return // side fact about a quantified term: cannot be stated at top level
 	}
 	if s.seen == nil {
 		s.seen = map[string]bool{}
